@@ -194,3 +194,17 @@ with oka (bound : nat) (a : args) : Prop :=
 Definition nonrec : Prop :=
   forall n d, lookup tb n = Some d -> okt (rank n) (body_of d).
 End Expand.
+
+(* no parameter reference (a sequence of the file, not a macro body) *)
+Fixpoint pfree (t : term) : Prop :=
+  match t with
+  | TEnd => True
+  | TSym _ r | TId _ r => pfree r
+  | TPar _ _ => False
+  | TCall _ a r => pfreea a /\ pfree r
+  end
+with pfreea (a : args) : Prop :=
+  match a with
+  | ANil => True
+  | ACons t a' => pfree t /\ pfreea a'
+  end.
